@@ -6,8 +6,9 @@ unregistered / updated / the instance closed at offsets around those queries.  T
 operations, broadcast-task steps, queue adds, queue timer firings, immediate answers, close) are logged by
 class-level wrappers and replayed through the Lean model `Zc.Goodbye.Host.step` (driver command `c08run`), which
 must find every block enabled and predict every datagram (stage C).  The property's own sentence -- three
-complete goodbyes 125 ms apart, and afterwards never one of those records with a non-zero TTL -- is evaluated on
-the wire-level log by an independent oracle (stage O).
+complete goodbyes (on every interface), and afterwards never one of those records with a non-zero TTL -- is evaluated on
+the wire-level log by an independent oracle (stage O).  Every simulated instance ends in `AsyncZeroconf.async_close`, and
+the close is judged like an unregister of everything that is still registered.
 """
 from __future__ import annotations
 
@@ -23,8 +24,8 @@ TRUSTED = [
     "which records answer a query and by which route (now / aggregated / delayed / unicast) is an input of the model, constrained to records of "
     "currently registered services (C03, C11, C12); queue timer instants are inputs (C12); type-enumeration queries are not generated",
 ]
-ASSUMPTIONS = ["asyncio runs callbacks to completion (atomic blocks); a ServiceInfo is not mutated while one of its broadcast tasks is running; "
-               "'never again' ends when a service defining the record is registered again"]
+ASSUMPTIONS = ["asyncio runs callbacks to completion (atomic blocks); a due task step is executed (loop axiom); "
+               "'never again' ends, record by record, when a service defining that very record is registered again"]
 
 GOODBYE = 125  # ms between goodbyes      (English statement)
 T0 = 10_000
